@@ -145,11 +145,14 @@ CHECKS += [
          "followed by pv2puml on the saved files, with the default and with a fully renamed field mapping, sync and async: the saved PV files hold exactly "
          "the events, links and field values of the in-memory stream (under the renamed keys), loading inverts saving, and the models learned on the two "
          "routes are equal per workflow (incl. a mapping whose custom names are other fields' standard names, and twin traces of one shape with reversed sibling order).",
-         "Bounded exploration on seeded trace sets; diagram text is not compared (C03). Additionally PROVED for all inputs (contracts/c14.py, 45 clauses, "
+         "Bounded exploration on seeded trace sets; diagram text is not compared (C03). Additionally PROVED for all inputs (contracts/c14.py, 66 clauses, "
          "the file boundary of the second sentence of the property): handle_save_events writes the n-th trace of a workflow, whole, as file n of the "
          "workflow's folder and touches no other file; save_pv_event_stream_to_file stores one dict per event, every field value under the field's "
          "(re)name and no other key; transform_dict_into_pv_event reads every field under the key the mapping gives it, normalises previousEventIds and "
-         "raises ValueError exactly when a mandatory renamed key is missing; pv_job_file_to_event_sequence loads every entry of the file in order; lemmas "
+         "raises ValueError exactly when a mandatory renamed key is missing; pv_job_file_to_event_sequence loads every entry of the file in order; "
+         "pv_job_files_to_event_sequence_streams turns the k-th file of its list, whole and alone, into the k-th event sequence (the first file that cannot be "
+         "loaded decides the exception) and pv_files_to_pv_streams hands exactly that to the learner under the given workflow name (job files; grouping by job id "
+         "is outside the precondition); lemmas "
          "load_inverts_save_event / load_inverts_save_file: loading what was saved under the same mapping (pairwise distinct names; default names when no "
          "mapping was used) gives the events back. Files are a ghost map (json.dump / json.load trusted to be inverse; pydantic validation trusted).",
          "DESIGN.md 4/C14"),
